@@ -10,7 +10,9 @@
                       raised -- a mutation made before the raise stays) and the value / exception
      value classes    Node and Arc objects are the records of Vrptw.v (an Arc refers to its
                       endpoint Node objects by their names, as in the hand model)
-     list / dict ops  index, in, [], append, pop, remove, insert, items, clear, update, d[k] = v
+     list / dict ops  index, in, [], append, pop, remove, insert, items, clear, update, d[k] = v,
+                      rebinding an attribute to a fresh dict()
+     loops            `for x in <list>: <statements that call methods>`  -> for_each
      numbers          positions are nat, data Z, window ends ext (float with +inf); an int that
                       meets a float in a comparison is embedded with Fin
 
@@ -31,6 +33,15 @@ Definition try_ {A B} (r : result A) (g : graph) (k : A -> M B) : M B :=
 Definition call {A B} (p : M A) (k : graph -> A -> M B) : M B :=
   match p with (g, Ok v) => k g v | (g, Err e) => (g, Err e) end.
 
+(* `for x in l: body` where the body calls methods / changes the object and assigns no local: the
+   body runs once per element, in list order, each time in the state the previous run left; the first
+   exception ends the loop and propagates with the state reached *)
+Fixpoint for_each {A} (body : graph -> A -> M unit) (l : list A) (g : graph) : M unit :=
+  match l with
+  | [] => ret g tt
+  | x :: l' => call (body g x) (fun g' _ => for_each body l' g')
+  end.
+
 (* ---------- attribute stores on the graph object ---------- *)
 Definition set_names (l : list nat) (g : graph) : graph := mkGraph l (nodes g) (arcs g).
 Definition set_nodes (l : list node) (g : graph) : graph := mkGraph (names g) l (arcs g).
@@ -47,6 +58,10 @@ Definition node_time_window (n : node) : Z * ext := (nlo n, nhi n).
 (* Arc: fields origin, destination (Node objects, held by name), travel_time, cost *)
 Definition new_Arc (origin destination : node) (travel_time cost : Z) : arc :=
   mkArc (nname origin) (nname destination) travel_time cost.
+
+(* arc.origin.name / arc.destination.name: the name of the endpoint Node object the Arc holds *)
+Definition arc_origin_name (a : arc) : nat := aorig a.
+Definition arc_destination_name (a : arc) : nat := adest a.
 
 (* ---------- Python lists ---------- *)
 Definition py_in (x : nat) (l : list nat) : bool := memb x l.
@@ -82,6 +97,8 @@ Definition dict_items {V} (d : dict V) : list ((nat * nat) * V) := d.
 Definition dict_keys {V} (d : dict V) : list (nat * nat) := map fst d.
 Definition dict_values {V} (d : dict V) : list V := map snd d.
 Definition dict_clear {V} : dict V := [].
+(* dict() / {} : a fresh empty dict an attribute is re-bound to (the old dict object is left as it is) *)
+Definition dict_new {V} : dict V := [].
 (* d[k]: KeyError when absent *)
 Definition py_dict_getitem {V} (k : nat * nat) (d : dict V) : result V :=
   match dict_get k d with Some v => Ok v | None => Err KeyError end.
